@@ -1043,7 +1043,7 @@ func valueOut(v any, err error) POut {
 func typedChunks[I any](chunks []any) []I {
 	out := make([]I, len(chunks))
 	for i, c := range chunks {
-		out[i] = c.(I)
+		out[i] = conv[I](c)
 	}
 	return out
 }
@@ -1119,10 +1119,10 @@ func (r packRunner[I, O]) call(par int, x any, chunks []any) POut {
 	o := guarded(func() POut {
 		switch par {
 		case 0:
-			v, err := r.i(ctx, x.(I))
+			v, err := r.i(ctx, conv[I](x))
 			return valueOut(any(v), err)
 		case 1:
-			return streamOut(r.s(ctx, x.(I)))
+			return streamOut(r.s(ctx, conv[I](x)))
 		case 2:
 			v, err := r.c(ctx, schema.StreamReaderFromArray(typedChunks[I](chunks)))
 			return valueOut(any(v), err)
@@ -1140,21 +1140,24 @@ func packT[I, O any](sp *NSpec, rec *recorder) runner {
 	return packRunner[I, O]{i, s, c, t, rec}
 }
 
+func packI[I any](sp *NSpec, rec *recorder) runner {
+	switch {
+	case sp.AnyOut:
+		return packT[I, any](sp, rec)
+	case !sp.outMap():
+		return packT[I, string](sp, rec)
+	case sp.TOut:
+		return packT[I, map[string]string](sp, rec)
+	}
+	return packT[I, map[string]any](sp, rec)
+}
+
 func pack(sp *NSpec, rec *recorder) runner {
-	if sp.AnyOut {
-		if sp.inMap() {
-			return packT[map[string]any, any](sp, rec)
-		}
-		return packT[string, any](sp, rec)
+	switch {
+	case !sp.inMap():
+		return packI[string](sp, rec)
+	case sp.TIn:
+		return packI[map[string]string](sp, rec)
 	}
-	switch sp.Kind {
-	case 0:
-		return packT[string, string](sp, rec)
-	case 1:
-		return packT[map[string]any, string](sp, rec)
-	case 2:
-		return packT[string, map[string]any](sp, rec)
-	default:
-		return packT[map[string]any, map[string]any](sp, rec)
-	}
+	return packI[map[string]any](sp, rec)
 }
